@@ -152,4 +152,17 @@ def run(ctx):
                    "by the correspondence relation coq/Corr/C17.v on every run",
                    "harness/props/c17.py (generator, linear-scan oracle, Coq term printer)",
                    "numpy cumsum/insert/argmax semantics as modelled (first True, 0 if none; negative index wraps)"]
+    ctx.trusted.insert(3, "harness/vlib/py2coq.py + harness/props/c17_src.py: translator (symbolic execution, fail-closed) of "
+                          "traffic_light.py TrafficLightCycle.cycle_init_timesteps / get_state_at_time_step, TrafficLight."
+                          "get_state_at_time_step into coq/Gen/Src_traffic_light.v on every run; C17_model_is_source proves "
+                          "the hand-written model equal to that text")
+    from props import c17_src
+    from vlib.py2coq import TranslationError
+    try:
+        changed = c17_src.generate()
+        ctx.notes.append(f"Gen/Src_traffic_light.v regenerated from the source ({'changed' if changed else 'unchanged'})")
+    except (TranslationError, SyntaxError, OSError, AssertionError) as e:
+        ctx.proof_breaks.append({"theorem": "translator:Gen/Src_traffic_light.v (C17_model_is_source)",
+                                 "where": "harness/props/c17_src.py", "log": str(e)})
+        ctx.log(f"translator failed: {e}")
     return standard_run(ctx, __import__("props.c17", fromlist=["x"]), 1200, 40000, RULE, ASSUME)
